@@ -361,3 +361,56 @@ def loop_elem(path, lk):
         if t[0] == "calli" and t[1] == "next" and c[1] == "Some" and t[2][0][0] == "loopvar" and t[2][0][1] == lk and t[2][0][3] == 0:
             return ("vfield", t, "Some", "0")
     return None
+
+
+# ------------------------------------------------------------------------ storage namespaces are pairwise distinct
+def _const_operands(x, acc):
+    if isinstance(x, dict):
+        if x.get("k") == "const" and "dp" in x:
+            acc.add(x["dp"])
+        for v in x.values():
+            _const_operands(v, acc)
+    elif isinstance(x, list):
+        for v in x:
+            _const_operands(v, acc)
+
+
+def storage_consts_used(engine, crate):
+    """def-path ids of the storage consts (own or imported) that the bodies of `crate` mention"""
+    key = ("storage_used", crate)
+    cache = engine.__dict__.setdefault("_misc_cache", {})
+    if key in cache:
+        return cache[key]
+    used = set()
+    for b in engine.facts.crates[crate]["bodies"]:
+        if b["kind"] in ("fn", "closure"):
+            _const_operands(b["blocks"], used)
+    out = {}
+    for dp in used:
+        ns = engine.namespace_of(("const", dp))
+        if ns and ns[1].startswith(("cw_storage_plus::", "cw_controllers::")):
+            names = [x for x in ns[0] if isinstance(x, str) and "::" not in x and "{" not in x]
+            out[dp] = names
+    cache[key] = out
+    return out
+
+
+def check_storage_namespaces(ctx, crates):
+    ctx.rule_texts["STORAGE"] = ("every storage accessor a contract uses (its own consts and those it imports from another crate) has "
+                                 "namespace literals that are pairwise distinct: two accessors on one namespace alias the same cells, so "
+                                 "a write through one silently changes what the other reads")
+    for crate in crates:
+        used = storage_consts_used(ctx.engine, crate)
+        seen = {}
+        clash = []
+        for dp, names in sorted(used.items()):
+            # exception (one, with reason): accessors declared in a `migrations` module deliberately re-read the previous
+            # format of the same cell (cw20-ics20 migrations::v1::CONFIG over "ics20_config")
+            if "::migrations::" in item_name(ctx.engine, ("const", dp)):
+                continue
+            for n in names:
+                if n in seen and seen[n] != dp:
+                    clash.append("%r is the namespace of both %s and %s" % (n, item_name(ctx.engine, ("const", seen[n])), item_name(ctx.engine, ("const", dp))))
+                seen.setdefault(n, dp)
+        ctx.ob("STORAGE", "%s: storage namespaces pairwise distinct" % crate, not clash,
+               detail="; ".join(clash), sample={"namespaces": sorted(seen)[:12]})
